@@ -9,4 +9,6 @@ import Bw.Props.C02
 #print axioms Bw.Props.C02.attr_edit_not_content
 #print axioms Bw.Props.C02.end_tag_line_edit_not_content
 #print axioms Bw.Props.C02.bsearch_sound
+#print axioms Bw.Props.C02.rangeCmp_mono
+#print axioms Bw.Props.C02.hit_exact
 #print axioms Bw.Props.C02.rules_block_local
